@@ -187,3 +187,31 @@ def write_replay(ck: Check, new):
         json.dump({"property": ck.pid, "violations": [o.as_dict() for o in new]}, f, indent=1)
         f.write("\n")
     return path
+
+
+
+class Scoped:
+    """A view of a Check that lets one property reuse another property's rule module for part of the code: obligations are kept
+    only when their construct matches `keep` (a predicate on the construct string) and are filed under rule id `rid`;
+    vacuity guards (`expect`, `min_instances`) of the borrowed module are not inherited, hard needs are."""
+
+    def __init__(self, ck, rid, keep):
+        self._ck, self._rid, self._keep = ck, rid, keep
+        self.m, self.pid, self.extra = ck.m, ck.pid, {}
+        self.kept = 0
+
+    def ob(self, rid, node, ok, msg="", stmt=None, construct=None, nontrivial=True):
+        c = construct if construct is not None else (self.m.construct(node) if node is not None else "<package>")
+        if not self._keep(c):
+            return bool(ok)
+        self.kept += 1
+        return self._ck.ob(self._rid, node, ok, msg, stmt if stmt is not None else node, construct, nontrivial)
+
+    def need(self, cond, msg):
+        return self._ck.need(cond, msg)
+
+    def expect(self, cond, msg):
+        return None
+
+    def min_instances(self, rid, minimum):
+        return None
